@@ -404,9 +404,24 @@ def find_kernel_cex(ck, pkg, kind, r, m, outs):
                 if all(x_ is not None for x_ in opv[v]):
                     q += '\n(assert (bvult (concat %s) %s))' % (' '.join('n%d' % x_ for x_ in reversed(opv[v])), bvconst256(m))
             x_, y_ = [low.name(t_) for t_ in n_['a']]
-            q += ('\n(assert (bvult (bvadd %s %s) %s))' % (x_, y_, x_)) if n_['op'] == 'add' else ('\n(assert (bvult %s %s))' % (x_, y_))
+            def is_bit(t_):
+                nn_ = r.nodes[t_]
+                if nn_['op'] in ('addc_c', 'subb_b'):
+                    return True
+                return nn_['op'] == 'lshr' and r.nodes[nn_['a'][1]]['op'] == 'const' and Eval(r, {}, apps).ev(nn_['a'][1]) == 63
+            xi_, yi_ = n_['a']
+            if n_['op'] == 'add' and (is_bit(xi_) or is_bit(yi_)):
+                # word + carry bit wraps exactly when the word is all ones and the bit is set (the form the solvers invert fastest)
+                wd_, bt_ = (x_, y_) if is_bit(yi_) else (y_, x_)
+                q += '\n(assert (= %s #xffffffffffffffff))\n(assert (= %s (_ bv1 64)))' % (wd_, bt_)
+            elif n_['op'] == 'add':
+                q += '\n(assert (bvult (bvadd %s %s) %s))' % (x_, y_, x_)
+            else:
+                q += '\n(assert (bvult %s %s))' % (x_, y_)
             names = [low.name(t_) for t_ in low.done if r.nodes[t_]['op'] == 'var']
-            mm, slv = smt.get_model(q, names, timeout=45 if ck.tier == 'quick' else 300)
+            if os.environ.get('VERIF_DUMP_WRAP'):
+                open(os.path.join(os.environ['VERIF_DUMP_WRAP'], 'wrap_%s_%s_%d.smt2' % (pkg, kind, i_)), 'w').write(q + '\n(check-sat)\n')
+            mm, slv = smt.get_model(q, names, timeout=100 if ck.tier == 'quick' else 400)
             return i_, mm, slv
         found = []
         if wraps:
